@@ -7,6 +7,7 @@ import shutil
 from harness import tlc, cli, mibs, par
 
 CFG = '''CONSTANTS
+  UsageChoices <- {us}
   FileSets <- {fs}
   InitDests <- {ds}
   Names <- Names2
@@ -14,9 +15,9 @@ CFG = '''CONSTANTS
   Dev_GreaterOnly = FALSE
   Dev_RevisionLeak = FALSE
 '''
-INVS = ['TypeOK', 'P_LatestWins', 'P_OthersUntouched', 'P_Accounting']
-SLICES = {'quick': [('copy-q', 'FileSets_q', 'Dests_q', 1500)],
-          'thorough': [('copy-q', 'FileSets_q', 'Dests_q', None), ('copy-t', 'FileSets_t', 'Dests_t', 6000)]}
+INVS = ['TypeOK', 'P_LatestWins', 'P_OthersUntouched', 'P_Accounting', 'P_UsageLeavesDestination', 'P_ExitZero']
+SLICES = {'quick': [('copy-q', 'FileSets_q', 'Dests_q', 1500), ('copy-usage', 'FileSets_u', 'Dests_q', None)],
+          'thorough': [('copy-q', 'FileSets_q', 'Dests_q', None), ('copy-usage', 'FileSets_u', 'Dests_q', None), ('copy-t', 'FileSets_t', 'Dests_t', 6000)]}
 REVS = {1: '200101010000Z', 2: '200201010000Z', 3: '200301010000Z'}
 
 
@@ -64,11 +65,26 @@ def observe(sc, root, mode='files', how='inproc'):
             with open(os.path.join(dst, n), 'w') as fh:
                 fh.write(mib_text(c['mod'], c['rev'], c['id']))
     argv = ['--mib-source=file://' + base]
+    usage = sc.get('usage', 'none')
+    if usage != 'none':
+        # the source files are named in the order the specification would have visited them, had it visited them
+        mode, sc = 'files', dict(sc, order=[f['id'] for f in sc['files']])
     if mode == 'files':
         argv += [os.path.join(src, names[i]) for i in sc['order']]
     else:
         argv.append(src)
     argv.append(dst)
+    if usage == 'help':
+        argv.insert(0, '--help')
+    elif usage == 'badOpt':
+        argv.insert(0, '--no-such-option')
+    elif usage == 'oneArg':
+        argv = argv[:1] + [dst]
+    elif usage == 'dstIsFile':
+        marker = os.path.join(root, 'plainfile')
+        with open(marker, 'w') as fh:
+            fh.write('x')
+        argv[-1] = marker
     r = cli.run_inproc('mibcopy', argv, cwd=root) if how == 'inproc' else cli.run_subproc('mibcopy', argv, cwd=root)
     lines, totals = cli.parse_copy_report(r['stderr'])
     rev = {v: k for k, v in names.items()}
@@ -119,7 +135,7 @@ def run(out, prop, tier, seed, only_slices=None):
     for label, fs, ds, cap in SLICES[tier]:
         if only_slices and label not in only_slices:
             continue
-        cfg = CFG.format(fs=fs, ds=ds)
+        cfg = CFG.format(fs=fs, ds=ds, us='AllUsage' if label == 'copy-usage' else 'OnlyNone')
         mc = cfg + 'INIT Init\nNEXT Next\n' + ''.join('INVARIANT %s\n' % i for i in INVS) + 'PROPERTY P_Monotone\nINVARIANT Export\n'
         res = tlc.run('MC_MibCopy', 'g.cfg', files={'g.cfg': mc}, timeout=3000)
         out.add_tlc(res, 'MibCopy/' + label)
@@ -135,7 +151,7 @@ def run(out, prop, tier, seed, only_slices=None):
             out.evaluations += 1
             if len({f['mod'] for f in sc['files']}) < len(sc['files']):
                 out.distinct.add(json.dumps([sc['files'], sc['dest0'], order], sort_keys=True))
-            traces.append({'id': tid, 'files': sc['files'], 'dest0': sc['dest0'], 'order': order, 'obs': obs})
+            traces.append({'id': tid, 'usage': sc.get('usage', 'none'), 'files': sc['files'], 'dest0': sc['dest0'], 'order': order, 'obs': obs})
             info[tid] = (sc, obs, order, extra)
             if sub is not None and any(sub[k] != obs[k] for k in ('dest', 'failed', 'seen', 'strays', 'exit')):
                 out.machinery_errors.append('in-process and subprocess runs of mibcopy disagree for %s' % brief(sc, order))
@@ -165,7 +181,7 @@ def run(out, prop, tier, seed, only_slices=None):
                 out.add_drift('mibcopy %s differs from MibCopy.tla for %s: observed %s, model %s' % (
                     v['drift'], brief(sc, order), {n: c['id'] for n, c in obs['dest'].items()}, v['mdest']))
     if not only_slices:
-        lres = tlc.run('MC_MibCopy', 'live.cfg', files={'live.cfg': CFG.format(fs='FileSets_q', ds='Dests_q') + 'SPECIFICATION Spec\nPROPERTY Termination\n'}, timeout=3000)
+        lres = tlc.run('MC_MibCopy', 'live.cfg', files={'live.cfg': CFG.format(fs='FileSets_q', ds='Dests_q', us='OnlyNone') + 'SPECIFICATION Spec\nPROPERTY Termination\n'}, timeout=3000)
         out.add_tlc(lres, 'MibCopy/liveness(Termination under WF)')
     if tier != 'quick' and not only_slices:
         # unbounded argument: inductive invariant of the visiting loop discharged by Apalache (any number of files / revisions)
